@@ -33,7 +33,7 @@ STARTS = ["0", "2.5", "4.95", "5.95", "-0.05", "-125.4", "-180", "-90", "165.7",
           "-34.85", "-47.95", "5.0", "1.05", "-0.5", "100.25", "-179.975", "12.3", "-7.7", "0.3", "6.0", "4.0"]
 STEPS = ["0.1", "0.05", "0.2", "0.25", "0.5", "1", "0.01", "0.025", "0.3", "2", "5", "10", "2.5"]
 # "awkward" grids: first edge small compared with the step, step not a short binary fraction (0.1/0.3, -0.05/0.15, 0.06/0.01 ...)
-ODD_STARTS = ["0.1", "-0.05", "0.2", "0.06", "0.12", "0.15", "0.3", "0.7", "1.1", "0.05", "-0.1", "0.01"]
+ODD_STARTS = ["0.1", "-0.05", "0.2", "0.06", "0.12", "0.15", "0.3", "0.7", "1.1", "0.05", "-0.1", "0.01", "-0.2", "-0.06", "-0.27"]
 ODD_STEPS = ["0.3", "0.15", "0.6", "0.7", "0.9", "0.35", "0.45", "0.01", "0.02", "0.03", "0.07", "1.3"]
 NS_QUICK = [1, 2, 3, 10, 31, 65, 76, 361]
 NS_THOR = [1, 2, 3, 10, 31, 65, 76, 361, 1801, 3601]
@@ -210,7 +210,7 @@ def drive_grid(ctx, bins, rng, label, kinds=("array",), modes=(False, True), dty
         for dt in dtypes:
             for kind in kinds:
                 p = probes
-                if dt == "float32":
+                if dt in ("float32", ">f4"):
                     p = numpy.unique(probes.astype(numpy.float32))
                     p = p[numpy.isfinite(p)]
                 elif dt == "int64":
@@ -249,7 +249,7 @@ def run(ctx):
                     continue
                 bins = decimal_bins(s, h, n)
                 kinds = ("array",) if n > 10 else ("array", "scalar", "zerod", "list")
-                dts = ("float64",) if n > 80 else ("float64", "float32", "int64")
+                dts = ("float64",) if n > 80 else ("float64", "float32", "int64", ">f8", ">f4")      # incl. arrays in non-native byte order (as read from big-endian files)
                 drive_grid(ctx, bins, rng, "dec:%s:%s:%d" % (s, h, n), kinds=kinds, dtypes=dts)
     # 1b. awkward grids (every edge probed: the failure mode needs a high bin index)
     for s in ODD_STARTS:
@@ -258,7 +258,7 @@ def run(ctx):
             if not ctx.mine(ci) or (not thorough and ci % 2):
                 continue
             bins = decimal_bins(s, h, 4800 if thorough else 200)
-            drive_grid(ctx, bins, rng, "odd:%s:%s" % (s, h))
+            drive_grid(ctx, bins, rng, "odd:%s:%s" % (s, h), dtypes=("float64", ">f8"))
     # 2. random decimal grids (0-3 digits)
     nrand = 48000 if thorough else 120
     for j in range(nrand):
@@ -370,7 +370,7 @@ def run(ctx):
         run_repo_suite(ctx, ["test_calc.py", "test_spatial.py", "test_catalog.py", "test_regions.py", "test_forecast.py", "test_evaluations.py",
                              "test_magnitude_tests.py", "test_adaptiveHistogram.py"])
 
-META["added"] = "Added: awkward start/step pairs (first edge small against the step, non-binary steps), explicit-tol grids, spacings >= 2 (subnormals next to a 0.0 edge), generator check over awkward steps, the repository's own test-suite as a workload under the contract (thorough). generator called again after an in-place edit of its previous result. open top bin through a catalog's spatial_magnitude_counts."
+META["added"] = "Added: awkward start/step pairs (first edge small against the step, non-binary steps), explicit-tol grids, spacings >= 2 (subnormals next to a 0.0 edge), generator check over awkward steps, the repository's own test-suite as a workload under the contract (thorough). generator called again after an in-place edit of its previous result. open top bin through a catalog's spatial_magnitude_counts. non-native byte order arrays."
 MANIFEST = {
     "technique": "runtime contract (post-condition) on the real bin1d_vec/cleaner_range at every call site + exact-comparison reference bin over generated edge-adjacent probes",
     "level_text": "Every call of bin1d_vec made by the workload and by the library's own call sites is checked by an exact-comparison oracle (two hard clauses + documented round-off band); ~1e7 (quick) to ~1e9 (thorough) probe values concentrated on edges +-ulps over thousands of grids, both modes, scalar/array/int/float32 inputs; edge generators compared element-wise with the exact Decimal grid. Held-on-observed, not a proof: the float domain is sampled.",
